@@ -1,13 +1,17 @@
 #!/bin/sh
-# tools/process_rewrites.sh : for every /tmp/rw-Cxx/out/<letter> not yet processed: suite + demo with the rewrite, then the property's quick check; log to /var/tmp/rewrites.log
-for d in /tmp/rw-C*/out; do
-  p=$(echo $d | sed 's/.*rw-\(C[0-9]*\).*/\1/')
+# tools/process_rewrites.sh [P]: for every /tmp/rw-Cxx/out/<letter> not yet processed: suite + demo with the rewrite, then the
+# property's quick check against a scratch worktree; one log per rewrite in /var/tmp/rw-logs; P properties in parallel (default 4)
+one() {
+  d=$1; p=$(echo $d | sed 's/.*rw-\(C[0-9]*\).*/\1/')
   for x in r s t u v w; do
     [ -f $d/$x/meta.json ] && [ -f $d/$x/patch.diff ] && [ -f $d/$x/demo.py ] || continue
     [ -f $d/$x/.processed ] && continue
-    echo "== $p-$x" >> /var/tmp/rewrites.log
-    /verif/tools/confirm_seed.sh $d/$x 2>&1 | tail -1 >> /var/tmp/rewrites.log
-    /verif/tools/try_seed.sh $d/$x/patch.diff $p 2>&1 | grep -E "VIOLATION|KNOWN|quick:|exit=|BROKEN" | cut -c1-300 | head -5 >> /var/tmp/rewrites.log
+    log=/var/tmp/rw-logs/$p-$x.log
+    echo "== $p-$x" > $log
+    /verif/tools/confirm_seed.sh $d/$x 2>&1 | tail -1 >> $log
+    /verif/tools/try_seed.sh $d/$x/patch.diff $p 2>&1 | grep -E "VIOLATION|KNOWN|quick:|exit=|BROKEN" | cut -c1-400 | head -6 >> $log
     touch $d/$x/.processed
   done
-done
+}
+if [ "${1:-}" = "--one" ]; then one "$2"; exit 0; fi
+ls -d /tmp/rw-C*/out | xargs -P ${1:-4} -I{} sh "$0" --one {}
